@@ -647,6 +647,24 @@ save_expansion(Expansion &expansion, const string &exp, const vector_string &par
 }
 
 /**
+ * Returns true if the variable arguments of this invocation contain at least
+ * one token, which is the condition under which __VA_OPT__ is replaced by its
+ * contents.
+ */
+bool CPPManifest::
+has_variadic_args(const vector_string &args) const {
+  if (_variadic_param < 0) {
+    return false;
+  }
+  size_t first = (size_t)_variadic_param;
+  if (args.size() > first + 1) {
+    // More than one variable argument: there is at least a comma.
+    return true;
+  }
+  return args.size() == first + 1 && !args[first].empty();
+}
+
+/**
  *
  */
 string CPPManifest::
@@ -701,9 +719,9 @@ r_expand(const Expansion &expansion, const vector_string &args,
         result += node._str;
       }
     }
-    if (!node._nested.empty()) {
+    if (node._optional || !node._nested.empty()) {
       string nested_result;
-      if (node._optional && args.size() >= _num_parameters) {
+      if (node._optional && has_variadic_args(args)) {
         nested_result = r_expand(node._nested, args, expand_undefined, ignores);
       }
       if (node._stringify) {
